@@ -1,4 +1,6 @@
 From Coq Require Import List Arith Lia Permutation Bool.
+From AAC_tactics Require Import AAC Instances.
+Import Instances.Lists.
 Import ListNotations.
 
 Section Pipe.
@@ -102,9 +104,199 @@ Proof.
   all: try (rewrite ?app_length, ?map_app, ?list_sum_app, ?flat_map_app; simpl; lia).
   all: try (etransitivity; [| eassumption]).
   all: try (etransitivity; [| rewrite flat_map_app; simpl; rewrite app_nil_r; apply Permutation_app; [eassumption | reflexivity]]).
-  all: repeat rewrite ?app_assoc.
-  all: try solve [ apply Permutation_app_tail; repeat rewrite <- ?app_assoc;
-                   repeat (apply Permutation_app_head); 
-                   try apply Permutation_app_comm ].
-Abort.
+  all: repeat match goal with |- context [?x :: ?l] => lazymatch l with nil => fail | _ => change (x :: l) with ([x] ++ l) end end.
+  all: try aac_reflexivity.
+  all: try (rewrite <- Hk; aac_reflexivity).
+Qed.
+
+
+
+(* ---------- auxiliary invariants ---------- *)
+Definition n_send (r : list rstate) := length (filter (fun x => match x with RSend _ => true | _ => false end) r).
+Definition Aux (s : state) : Prop :=
+  sema s = n_send (rd s) /\
+  (closed s = true -> all_done_r (rd s)) /\
+  (In WDone (wk s) -> closed s = true /\ ch s = []) /\
+  (rclosed s = true -> all_done_w (wk s)) /\
+  (cdone s = true -> rclosed s = true /\ rch s = []).
+
+Lemma n_send_mid r1 x r2 : n_send (r1 ++ x :: r2) = n_send r1 + (match x with RSend _ => 1 | _ => 0 end) + n_send r2.
+Proof. unfold n_send. rewrite filter_app, app_length. simpl. destruct x; simpl; lia. Qed.
+
+Lemma all_done_r_mid r1 x r2 : all_done_r (r1 ++ x :: r2) -> x = RDone.
+Proof. unfold all_done_r. rewrite Forall_app. intros (_ & H). now inversion H. Qed.
+Lemma all_done_w_mid w1 x w2 : all_done_w (w1 ++ x :: w2) -> x = WDone.
+Proof. unfold all_done_w. rewrite Forall_app. intros (_ & H). now inversion H. Qed.
+Lemma all_done_r_set r1 x r2 : all_done_r (r1 ++ x :: r2) -> all_done_r (r1 ++ RDone :: r2).
+Proof. unfold all_done_r. rewrite !Forall_app. intros (H1 & H2). split; auto. inversion H2; subst. constructor; auto. Qed.
+
+Lemma in_mid_other {A} (y : A) l1 x x' l2 : In y (l1 ++ x' :: l2) -> y <> x' -> In y (l1 ++ x :: l2).
+Proof. rewrite !in_app_iff. simpl. intros [H|[H|H]] Hn; auto. congruence. Qed.
+
+Lemma aux_step s s' : Aux s -> step s s' -> Aux s'.
+Proof.
+  intros (Hs & Hc & Hw & Hrc & Hcd) Hst.
+  inversion Hst; subst; unfold Aux; cbn [rd sema ch closed wk rch rclosed consumed cdone];
+    try match goal with H : rd s = _ |- _ => rewrite H in * end;
+    try match goal with H : wk s = _ |- _ => rewrite H in * end.
+  all: rewrite ?n_send_mid in *; simpl in *.
+  all: repeat split; intros; try lia; try tauto; try congruence.
+  all: try (match goal with H : all_done_r _ |- all_done_r _ => exact (all_done_r_set _ _ _ H) end).
+  all: try (match goal with Hx : closed _ = true |- _ => apply Hc in Hx; apply all_done_r_mid in Hx; discriminate end).
+  all: try (match goal with Hx : closed _ = true |- all_done_r _ => apply Hc in Hx; exact (all_done_r_set _ _ _ Hx) end).
+  all: try (match goal with Hx : rclosed _ = true |- _ => apply Hrc in Hx; apply all_done_w_mid in Hx; discriminate end).
+  all: try (match goal with Hx : In WDone (_ ++ _ :: _) |- _ =>
+              eapply (in_mid_other WDone) in Hx; [destruct (Hw Hx); congruence | discriminate] end).
+  all: try (match goal with Hx : In WDone _ |- _ => destruct (Hw Hx); congruence end).
+  all: try (match goal with Hx : cdone _ = true |- _ => destruct (Hcd Hx); congruence end).
+Qed.
+
+
+(* ---------- progress ---------- *)
+Lemma wk_cases (w : list wstate) :
+  (exists w1 ls out w2, w = w1 ++ WBusy ls out :: w2) \/
+  (exists w1 w2, w = w1 ++ WIdle :: w2) \/ all_done_w w.
+Proof.
+  induction w as [|x w IH]; [right; right; constructor|].
+  destruct x as [|ls out|].
+  - right; left. exists [], w. reflexivity.
+  - left. exists [], ls, out, w. reflexivity.
+  - destruct IH as [(w1 & ls & out & w2 & ->)|[(w1 & w2 & ->)|H]].
+    + left. exists (WDone :: w1), ls, out, w2. reflexivity.
+    + right; left. exists (WDone :: w1), w2. reflexivity.
+    + right; right. constructor; auto.
+Qed.
+
+Lemma rd_cases (r : list rstate) :
+  (exists r1 bs r2, r = r1 ++ RSend bs :: r2) \/
+  (n_send r = 0 /\ ((exists r1 ok bs r2, r = r1 ++ RNew ok bs :: r2) \/ all_done_r r)).
+Proof.
+  induction r as [|x r IH]; [right; split; [reflexivity|right; constructor]|].
+  destruct x as [ok bs|bs|].
+  - destruct IH as [(r1 & bs' & r2 & ->)|(Hn & _)].
+    + left. exists (RNew ok bs :: r1), bs', r2. reflexivity.
+    + right. split; [exact Hn|]. left. exists [], ok, bs, r. reflexivity.
+  - left. exists [], bs, r. reflexivity.
+  - destruct IH as [(r1 & bs' & r2 & ->)|(Hn & [(r1 & ok & bs & r2 & ->)|H])].
+    + left. exists (RDone :: r1), bs', r2. reflexivity.
+    + right. split; [exact Hn|]. left. exists (RDone :: r1), ok, bs, r2. reflexivity.
+    + right. split; [exact Hn|]. right. constructor; auto.
+Qed.
+
+Definition cfg_ok := nreaders c >= 1 /\ chcap c >= 1 /\ rcap c >= 1.
+
+Theorem progress s : cfg_ok -> Aux s -> cdone s = false -> exists s', step s s'.
+Proof.
+  intros (Hn & Hcc & Hrc) (Hs & Hc & Hw & Hrcl & Hcd) Hnd.
+  destruct (rch s) as [|m rest] eqn:Erch; [|eexists; eapply s_crecv; eauto].
+  destruct (rclosed s) eqn:Ercl; [eexists; eapply s_cdone; eauto|].
+  destruct (wk_cases (wk s)) as [(w1 & ls & out & w2 & Ew)|[(w1 & w2 & Ew)|Hall]].
+  - destruct ls as [|l ls].
+    + destruct out as [|o out].
+      * eexists; eapply s_wskip; eauto.
+      * eexists; eapply s_wsend; eauto. rewrite Erch. simpl. lia.
+    + eexists; eapply s_wline; eauto.
+  - destruct (ch s) as [|b rest] eqn:Ech; [|eexists; eapply s_wrecv; eauto].
+    destruct (closed s) eqn:Ecl; [eexists; eapply s_wexit; eauto|].
+    destruct (rd_cases (rd s)) as [(r1 & bs & r2 & Er)|(Hns & [(r1 & ok & bs & r2 & Er)|Hall])].
+    + destruct bs as [|b bs].
+      * eexists; eapply s_rfin; eauto.
+      * eexists; eapply s_rsend; eauto. rewrite Ech. simpl. lia.
+    + destruct ok.
+      * eexists; eapply s_racq_ok; eauto. lia.
+      * eexists; eapply s_racq_fail; eauto. lia.
+    + eexists; eapply s_close; eauto.
+  - eexists; eapply s_rclose; eauto.
+Qed.
+
+(* ---------- what a finished run looks like ---------- *)
+Definition nworkers_ok (s : state) := wk s <> [].
+
+Lemma all_done_w_lines w : all_done_w w -> flat_map w_lines w = [] /\ flat_map w_out w = [].
+Proof. induction 1 as [|x w Hx _ (IH1 & IH2)]; [auto|]. subst x. simpl. auto. Qed.
+Lemma all_done_r_lines r : all_done_r r -> flat_map r_lines r = [].
+Proof. induction 1 as [|x r Hx _ IH]; [auto|]. subst x. simpl. auto. Qed.
+
+Theorem finished_all input s : Inv input s -> Aux s -> wk s <> [] -> cdone s = true ->
+  Permutation (processed s) input /\
+  Permutation (consumed s) (flat_map key_of input) /\
+  cR s = length input /\ cM s = list_sum (map isM input) /\ cI s = list_sum (map isI input).
+Proof.
+  intros (Hp & Hk & HR & HM & HI) (Hs & Hc & Hw & Hrcl & Hcd) Hne Hd.
+  destruct (Hcd Hd) as (Hrc & Hrch). pose proof (Hrcl Hrc) as Hall.
+  assert (Hin : In WDone (wk s)).
+  { destruct (wk s) as [|x w]; [congruence|]. inversion Hall; subst. now left. }
+  destruct (Hw Hin) as (Hcl & Hch). pose proof (Hc Hcl) as Hallr.
+  destruct (all_done_w_lines _ Hall) as (Hwl & Hwo).
+  unfold pending, keys_inflight in *. rewrite (all_done_r_lines _ Hallr), Hch, Hwl in Hp. simpl in Hp.
+  rewrite Hwo, Hrch in Hk. simpl in Hk.
+  assert (Hkk : Permutation (flat_map key_of (processed s)) (flat_map key_of input)).
+  { clear -Hp. induction Hp; simpl; auto.
+    - now apply Permutation_app_head.
+    - rewrite !app_assoc. apply Permutation_app_tail. apply Permutation_app_comm.
+    - etransitivity; eauto. }
+  assert (Hsum : forall f : L -> nat, list_sum (map f (processed s)) = list_sum (map f input)).
+  { intros f. clear -Hp. induction Hp; simpl; auto; lia. }
+  repeat split; auto.
+  - etransitivity; eauto.
+  - rewrite HR. now apply Permutation_length.
+  - rewrite HM. apply Hsum.
+  - rewrite HI. apply Hsum.
+Qed.
+
+(* ---------- from the initial state ---------- *)
+Definition init (srcs : list (bool * list batch)) (nw : nat) : state :=
+  mk (map (fun x : bool * list batch => RNew (fst x) (snd x)) srcs) 0 [] false (repeat WIdle nw) [] false [] false 0 0 0 0 [].
+Definition input_of (srcs : list (bool * list batch)) : list L :=
+  flat_map (fun x : bool * list batch => if fst x then concat (snd x) else []) srcs.
+
+Inductive reach (s0 : state) : state -> Prop :=
+| reach0 : reach s0 s0
+| reachS s s' : reach s0 s -> step s s' -> reach s0 s'.
+
+Lemma init_inv srcs nw : Inv (input_of srcs) (init srcs nw) /\ Aux (init srcs nw).
+Proof.
+  split.
+  - unfold Inv, pending, keys_inflight, init; cbn [rd ch wk rch consumed processed cR cM cI].
+    assert (E1 : flat_map r_lines (map (fun x : bool * list batch => RNew (fst x) (snd x)) srcs) = input_of srcs).
+    { unfold input_of. induction srcs as [|[ok bs] srcs IH]; simpl; [reflexivity|]. rewrite IH. destruct ok; reflexivity. }
+    assert (E2 : forall n, flat_map w_lines (repeat WIdle n) = [] /\ flat_map w_out (repeat WIdle n) = []).
+    { induction n; simpl; auto. }
+    rewrite E1. destruct (E2 nw) as (-> & ->). simpl. rewrite !app_nil_r. repeat split; auto.
+  - unfold Aux, init; cbn [rd sema ch closed wk rch rclosed cdone].
+    split; [unfold n_send; induction srcs; simpl; auto|].
+    split; [discriminate|]. split; [|split; discriminate].
+    intros Hx. apply repeat_spec in Hx. discriminate.
+Qed.
+
+Lemma wk_nonempty_step s s' : step s s' -> wk s <> [] -> wk s' <> [].
+Proof.
+  intros Hst Hne. inversion Hst; subst; cbn [wk]; auto;
+    match goal with |- ?a ++ _ :: _ <> [] => destruct a; discriminate end.
+Qed.
+
+(* the same, stated so that the induction goes through without terminality in the way *)
+Lemma reach_inv srcs nw s : nw >= 1 -> reach (init srcs nw) s ->
+  Inv (input_of srcs) s /\ Aux s /\ wk s <> [].
+Proof.
+  intros Hnw Hr. induction Hr as [|s s' Hr (I1 & I2 & I3) Hst].
+  - destruct (init_inv srcs nw). split; [assumption|]. split; [assumption|]. unfold init; cbn [wk]. destruct nw; [lia|simpl; discriminate].
+  - split; [eapply inv_step; eauto|]. split; [eapply aux_step; eauto|]. eapply wk_nonempty_step; eauto.
+Qed.
+
+Theorem C01_final_sketch srcs nw s : cfg_ok -> nw >= 1 ->
+  reach (init srcs nw) s -> (forall s', ~ step s s') ->
+  cdone s = true /\
+  Permutation (consumed s) (flat_map key_of (input_of srcs)) /\
+  cR s = length (input_of srcs) /\
+  cM s = list_sum (map isM (input_of srcs)) /\ cI s = list_sum (map isI (input_of srcs)).
+Proof.
+  intros Hcfg Hnw Hr Hterm. destruct (reach_inv _ _ _ Hnw Hr) as (I1 & I2 & I3).
+  destruct (cdone s) eqn:Hd.
+  - split; [reflexivity|]. destruct (finished_all _ _ I1 I2 I3 Hd) as (_ & H2 & H3 & H4 & H5). auto.
+  - exfalso. destruct (progress s Hcfg I2 Hd) as (s' & Hs). exact (Hterm s' Hs).
+Qed.
 End Pipe.
+Print Assumptions C01_final_sketch.
+Print Assumptions finished_all.
+Print Assumptions progress.
